@@ -568,6 +568,20 @@ func (g *Gen) recvOddShapes() {
 			g.pauseTx("BurningAndMinting", false)
 		}
 	}
+	// (a'') source domains that agree with a configured domain on their low 8, 16 or 24 bits: a messenger is registered
+	// for them, a pair is not (domain 1 has one for the same token) -- nothing is minted
+	owner := g.role("owner")
+	for _, d := range []uint32{1<<8 + 1, 1<<16 + 1, 1<<24 + 1, 1<<31 + 1} {
+		g.tx("AddRemoteTokenMessenger", newKV().set("from", hs(owner)).set("domain", fmt.Sprint(d)).set("address", hx(messengerAddr(d))))
+		body := buildBurnBody(0, token(0), pad32(g.acctRaw[1]), big.NewInt(12), g.rand32())
+		msg := buildMessage(0, d, 4, g.freshNonce(d), messengerAddr(d), types.PaddedModuleAddress, make([]byte, 32), body)
+		g.tx("ReceiveMessage", g.opReceive(g.acct[1], msg, attOpts{}))
+		// and the used pair of the big domain is not the used pair of the small one
+		other := buildMessage(0, 1, 4, 1000+uint64(d%7), g.rand32(), g.otherRecipient(), make([]byte, 32), nil)
+		g.tx("ReceiveMessage", g.opReceive(g.acct[1], other, attOpts{}))
+		other2 := buildMessage(0, d, 4, 1000+uint64(d%7), g.rand32(), g.otherRecipient(), make([]byte, 32), nil)
+		g.tx("ReceiveMessage", g.opReceive(g.acct[1], other2, attOpts{}))
+	}
 	// (b)
 	for _, c := range []struct {
 		d    uint32
